@@ -64,7 +64,9 @@ def call(f, *a):
 # ----------------------------------------------------------------------------- geometries under test
 class G:
     """a geometry: implementation object factory + model spec"""
-    def __init__(self, name, spec, make, par_dim, fun_shape, exact_inverse=True, tol=0.0, cls=None, unit=False):
+    def __init__(self, name, spec, make, par_dim, fun_shape, exact_inverse=True, tol=0.0, cls=None, unit=False,
+                 inner=None, fmap=None, fimap=None):
+        self.inner, self.fmap, self.fimap = inner, fmap, fimap   # mapped geometries: fresh wrapped geometry, map, imap
         self.name, self.spec, self.make = (name + "~unit" if unit else name), spec, make
         self.par_dim, self.fun_shape = par_dim, tuple(fun_shape)
         self.exact_inverse = exact_inverse      # fun2par is a two-sided inverse (not only a projection)
@@ -135,6 +137,16 @@ def build_geometries(cuqi, rng, thorough):
             gs.append(G("StepExpansion", step_spec(grid, s, proj),
                         lambda grid=grid, s=s, proj=proj: StepExpansion(grid, n_steps=s, fun2par_projection=proj),
                         s, (n,), exact_inverse=False, tol=1e-12, unit=(s == 1)))
+    for (x0, h, n, st), (sc, sh) in [((0.0, 1.0, 6, 3), (2.0, 1.0)), ((0.0, 0.5, 9, 4), (-2.0, 3.0)), ((-1.0, 1.0, 8, 2), (1.0, 3.0)),
+                                     ((0.0, 1.0, 10, 3), (-0.5, -3.0))]:
+        grid = x0 + h * np.arange(n)
+        for proj in ("mean", "max", "min"):
+            mk_in = lambda grid=grid, st=st, proj=proj: StepExpansion(grid, n_steps=st, fun2par_projection=proj)
+            fm = lambda x, sc=sc, sh=sh: sc * x + sh
+            fi = lambda y, sc=sc, sh=sh: (y - sh) / sc
+            gs.append(G("Mapped(StepExpansion)", f"mapped:{q(sc)}:{q(sh)}:1:" + step_spec(grid, st, proj),
+                        lambda mk_in=mk_in, fm=fm, fi=fi: MappedGeometry(mk_in(), map=fm, imap=fi),
+                        st, (n,), exact_inverse=False, tol=1e-12, inner=mk_in, fmap=fm, fimap=fi))
     return gs
 
 
@@ -245,6 +257,21 @@ def oracle_maps(ctx, key, g, rng):
     tol = 1e-11
     eq = lambda a, b: np.shape(a) == np.shape(b) and np.allclose(a, b, rtol=tol, atol=tol, equal_nan=False)
     veq = lambda a, b: np.size(a) == np.size(b) and np.allclose(np.ravel(a), np.ravel(b), rtol=tol, atol=tol)
+    if g.inner is not None:
+        with quiet():
+            inner = g.inner()
+        for shp in (g.fun_shape, g.fun_shape + (2,)):
+            fv = ints(rng, shp)
+            want, got = call(lambda: inner.fun2par(g.fimap(fv.copy()))), call(o.fun2par, fv.copy())
+            if isinstance(got, BaseException) or isinstance(want, BaseException) or not eq(np.asarray(got), np.asarray(want)):
+                ctx.fail(k("fun2par:documented-order"), {**d, "f": short(fv.tolist())}, short(repr(want)), short(repr(got)),
+                         "MappedGeometry.fun2par(f) is not geometry.fun2par(imap(f))")
+        for shp in ((g.par_dim,), (g.par_dim, 2)):
+            pv = ints(rng, shp)
+            want, got = call(lambda: g.fmap(inner.par2fun(pv.copy()))), call(o.par2fun, pv.copy())
+            if isinstance(got, BaseException) or isinstance(want, BaseException) or not eq(np.asarray(got), np.asarray(want)):
+                ctx.fail(k("par2fun:documented-order"), {**d, "p": short(pv.tolist())}, short(repr(want)), short(repr(got)),
+                         "MappedGeometry.par2fun(p) is not map(geometry.par2fun(p))")
     for trial in range(2):
         p = ints(rng, (g.par_dim,))
         f = call(o.par2fun, p)
@@ -739,6 +766,285 @@ def part_imgchk(ctx, thorough):
             ctx.note("internal inconsistency of the model's two F-order formulations (not a property failure by itself)")
 
 
+
+# ----------------------------------------------------------------------------- part F: attribute re-assignment histories on one object
+def _cmp(a, b, tol=1e-11):
+    if isinstance(a, BaseException) or isinstance(b, BaseException):
+        return isinstance(a, BaseException) and isinstance(b, BaseException)
+    a, b = np.asarray(a, dtype=float), np.asarray(b, dtype=float)
+    return a.shape == b.shape and np.allclose(a, b, rtol=tol, atol=tol, equal_nan=True)
+
+
+def _shapes(o):
+    out = {}
+    for nm in ("par_shape", "par_dim", "fun_shape", "fun_dim"):
+        r = call(lambda: getattr(o, nm))
+        out[nm] = "raise" if isinstance(r, BaseException) else (tuple(r) if isinstance(r, tuple) else r)
+    return out
+
+
+def part_reassign(ctx, cuqi, thorough):
+    """One geometry object: use it (maps, shapes — so that anything derived is cached), re-assign an
+    attribute through the public interface, use it again.  Demanded: identical to a FRESH geometry
+    built with the current attributes (which parts A–D tie to the model), and the round trip.  The KL
+    maps are additionally compared with the model (pure function of the current attributes)."""
+    from cuqi.geometry import KLExpansion, StepExpansion, Image2D, Continuous2D, Continuous1D, MappedGeometry
+    from scipy.fftpack import dst, idst
+    rng = np.random.RandomState(ctx.seed + 1305)
+    hist = []   # (name, attr-label, make, [steps], fresh_from(obj_state)), a step = (label, action(obj), fresh())
+
+    def kl_hist(N1, nm, gam, tau, regrids):
+        steps = []
+        for (N2, a, b) in regrids:
+            grid = np.linspace(a, b, N2)
+            steps.append(("grid", lambda o, grid=grid: setattr(o, "grid", grid),
+                          lambda grid=grid: KLExpansion(grid, decay_rate=gam, normalizer=tau, num_modes=nm)))
+        return ("KLExpansion", lambda: KLExpansion(np.linspace(0, 1, N1), decay_rate=gam, normalizer=tau, num_modes=nm), steps,
+                {"N1": N1, "num_modes": nm, "decay_rate": gam, "normalizer": tau, "regrids": [r[0] for r in regrids]})
+
+    for (N1, nm, regr) in [(8, 3, [(10, 0, 1)]), (8, 3, [(5, 1, 3), (12, 0, 1)]), (8, None, [(10, 0, 1)]), (8, None, [(5, 0, 2), (8, 0, 1)]),
+                           (6, 9, [(12, 0, 1)]), (6, 9, [(8, 0, 1), (12, -1, 1)]), (10, 4, [(4, 0, 1)]), (10, 4, [(16, 0, 1), (10, 0, 1)]),
+                           (7, 7, [(9, 0, 1)]), (12, 2, [(6, 0, 1), (7, 2, 3)])] + \
+                          ([(int(rng.randint(2, 17)), [None, 2, 3, 5][rng.randint(4)], [(int(rng.randint(2, 17)), 0, 1), (int(rng.randint(2, 17)), 0, 2)])
+                            for _ in range(30 if thorough else 6)]):
+        hist.append(kl_hist(N1, nm, [2.5, 1, 2][rng.randint(3)], [12.0, 1.0, 0.5][rng.randint(3)], regr))
+    # attributes without a public setter: a refusal is fine; if accepted the fresh geometry takes the new value
+    for attr, val, kw in [("num_modes", 2, "num_modes"), ("decay_rate", 1.0, "decay_rate"), ("normalizer", 2.0, "normalizer")]:
+        base = dict(decay_rate=2.5, normalizer=12.0, num_modes=4)
+        new = dict(base); new[kw] = val
+        hist.append(("KLExpansion", lambda base=base: KLExpansion(np.linspace(0, 1, 8), **base),
+                     [(attr, lambda o, attr=attr, val=val: setattr(o, attr, val), lambda new=new: KLExpansion(np.linspace(0, 1, 8), **new))],
+                     {"attr": attr, "value": val}))
+    for (g1, g2, st) in [(np.arange(6.0), np.arange(9.0), 3), (np.arange(6.0), 2 + 0.5 * np.arange(6.0), 3), (np.arange(8.0), np.arange(4.0), 4),
+                         (0.5 * np.arange(9.0), np.arange(12.0), 4)]:
+        for proj in ("mean", "max"):
+            hist.append(("StepExpansion", lambda g1=g1, st=st, proj=proj: StepExpansion(g1, n_steps=st, fun2par_projection=proj),
+                         [("grid", lambda o, g2=g2: setattr(o, "grid", g2), lambda g2=g2, st=st, proj=proj: StepExpansion(g2, n_steps=st, fun2par_projection=proj))],
+                         {"grid1": g1.tolist(), "grid2": g2.tolist(), "n_steps": st, "projection": proj}))
+    hist.append(("StepExpansion", lambda: StepExpansion(np.arange(6.0), n_steps=3),
+                 [("n_steps", lambda o: setattr(o, "n_steps", 2), lambda: StepExpansion(np.arange(6.0), n_steps=2))], {"attr": "n_steps"}))
+    for (a, b) in [(2, 3), (3, 4), (4, 2)]:
+        for o1, o2 in (("C", "F"), ("F", "C")):
+            hist.append(("Image2D", lambda a=a, b=b, o1=o1: Image2D((a, b), order=o1),
+                         [("order", lambda o, o2=o2: setattr(o, "order", o2), lambda a=a, b=b, o2=o2: Image2D((a, b), order=o2)),
+                          ("order", lambda o, o1=o1: setattr(o, "order", o1), lambda a=a, b=b, o1=o1: Image2D((a, b), order=o1))],
+                         {"im_shape": [a, b], "orders": [o1, o2, o1]}))
+    for (sh1, sh2) in [((2, 3), (3, 2)), ((2, 3), (3, 3)), ((4, 2), (2, 2))]:
+        hist.append(("Continuous2D", lambda sh1=sh1: Continuous2D(sh1),
+                     [("grid", lambda o, sh2=sh2: setattr(o, "grid", sh2), lambda sh2=sh2: Continuous2D(sh2))], {"grid1": sh1, "grid2": sh2}))
+        hist.append(("Mapped(Continuous2D)", lambda sh1=sh1: MappedGeometry(Continuous2D(sh1), map=lambda x: 2 * x + 1, imap=lambda y: (y - 1) / 2),
+                     [("inner-grid", lambda o, sh2=sh2: setattr(o.geometry, "grid", sh2),
+                       lambda sh2=sh2: MappedGeometry(Continuous2D(sh2), map=lambda x: 2 * x + 1, imap=lambda y: (y - 1) / 2))], {"grid1": sh1, "grid2": sh2}))
+    hist.append(("Continuous1D", lambda: Continuous1D(5), [("grid", lambda o: setattr(o, "grid", 7), lambda: Continuous1D(7))], {}))
+    maps = {"affine": (lambda x: 2 * x + 1, lambda y: (y - 1) / 2), "shift": (lambda x: x + 3, lambda y: y - 3),
+            "cube": (lambda x: x ** 3, np.cbrt), "exp": (np.exp, np.log)}
+    for inner_name, mk_inner in [("StepExpansion", lambda: StepExpansion(np.arange(6.0), n_steps=3, fun2par_projection="max")),
+                                 ("KLExpansion", lambda: KLExpansion(np.linspace(0, 1, 8), num_modes=3)),
+                                 ("Image2D", lambda: Image2D((2, 3), order="F"))]:
+        for m1, m2 in [("affine", "shift"), ("exp", "cube"), ("shift", "exp")]:
+            def act(o, m2=m2):
+                o.map, o.imap = maps[m2]
+            hist.append((f"Mapped({inner_name})", lambda mk_inner=mk_inner, m1=m1: MappedGeometry(mk_inner(), map=maps[m1][0], imap=maps[m1][1]),
+                         [("map/imap", act, lambda mk_inner=mk_inner, m2=m2: MappedGeometry(mk_inner(), map=maps[m2][0], imap=maps[m2][1]))],
+                         {"maps": [m1, m2]}))
+
+    kl_lines, kl_meta = [], []
+    for (name, make, steps, info) in hist:
+        with quiet():
+            o = make()
+        def use(o):
+            pd, fs = call(lambda: o.par_dim), call(lambda: o.fun_shape)
+            if isinstance(pd, BaseException) or isinstance(fs, BaseException) or pd is None:
+                return
+            for shp_p, shp_f in (((pd,), tuple(fs)), ((pd, 2), tuple(fs) + (2,))):
+                call(o.par2fun, 0.25 * ints(rng, shp_p, 1, 8)); call(o.fun2par, 0.25 * ints(rng, shp_f, 1, 8))
+            call(lambda: o.funvec_shape)
+        use(o)
+        for si, (attr, action, fresh_mk) in enumerate(steps):
+            desc = {"geometry": name, "history": info, "step": si, "reassigned": attr}
+            ctx.case("reassign", desc)
+            r = call(action, o)
+            if isinstance(r, AttributeError):
+                ctx.case("reassign-refused", desc, nontrivial=False)
+                break
+            key = f"{name}:reassign:{attr}"
+            if isinstance(r, BaseException):
+                ctx.fail(key + ":raises", desc, "attribute re-assigned or AttributeError", repr(r)[:100]); break
+            fresh = call(fresh_mk)
+            if isinstance(fresh, BaseException):
+                break
+            so, sf = _shapes(o), _shapes(fresh)
+            if so != sf:
+                ctx.fail(key + ":shapes", {**desc, "fresh": str(sf)}, str(sf), str(so), "shapes reported after the re-assignment are not those of a fresh geometry with the same attributes")
+            pd, fs = sf["par_dim"], sf["fun_shape"]
+            for ns in (None, 2):
+                P = 0.25 * ints(rng, (pd,) if ns is None else (pd, ns), 1, 8)
+                F = 0.25 * ints(rng, tuple(fs) if ns is None else tuple(fs) + (ns,), 1, 8)
+                a, b = call(o.par2fun, P.copy()), call(fresh.par2fun, P.copy())
+                if not _cmp(a, b):
+                    ctx.fail(key + ":par2fun", {**desc, "p": short(P.tolist())}, short(repr(b)), short(repr(a)), "par2fun after re-assignment differs from a fresh geometry")
+                a2, b2 = call(o.fun2par, F.copy()), call(fresh.fun2par, F.copy())
+                if not _cmp(a2, b2):
+                    ctx.fail(key + ":fun2par", {**desc, "f": short(F.tolist())}, short(repr(b2)), short(repr(a2)), "fun2par after re-assignment differs from a fresh geometry")
+                if not isinstance(a, BaseException) and not (ns is not None and "Image2D" in name):   # Image2D batch fun2par: listed finding
+                    back = call(o.fun2par, a)
+                    if isinstance(back, BaseException) or np.size(back) != P.size or not np.allclose(np.ravel(back), P.ravel(), rtol=1e-9, atol=1e-9):
+                        ctx.fail(key + ":roundtrip", {**desc, "p": short(P.tolist())}, short(P.tolist()), short(repr(back)), "fun2par(par2fun(p)) != p after re-assignment")
+                # model (KL): pure function of the current attributes
+                if name == "KLExpansion" and not isinstance(a2, BaseException):
+                    N, m = int(fs[0]), int(pd)
+                    c = 1.0 / np.arange(1, m + 1, dtype=float) ** fresh.decay_rate
+                    D = dst(F.reshape(N, -1).T * 2).T
+                    kl_lines.append(f"klpost {qv(c)} {q(fresh.normalizer)} {N} {enc(D)}")
+                    kl_lines.append(f"klpre {qv(c)} {q(fresh.normalizer)} {N} {enc(P)}")
+                    kl_meta.append((key, desc, a2, a, F, P))
+            use(o)
+    outs = ctx.lean.drive(kl_lines)
+    for i, (key, desc, p_impl, f_impl, F, P) in enumerate(kl_meta):
+        post, pre = parse_arr(outs[2 * i]), parse_arr(outs[2 * i + 1])
+        ctx.case("reassign-kl-model", desc)
+        if isinstance(post, str) or isinstance(pre, str):
+            ctx.disagree(key + ":fun2par", desc, outs[2 * i][:60], short(repr(p_impl)), "model refuses"); continue
+        pm_ = np.array([float(v) for v in post[1]]).reshape(post[0])
+        if np.shape(p_impl) != pm_.shape or not np.allclose(p_impl, pm_, rtol=1e-10, atol=1e-10):
+            ctx.disagree(key + ":fun2par", {**desc, "f": short(F.tolist())}, short(pm_.tolist()), short(np.asarray(p_impl).tolist()),
+                         "fun2par after re-assignment differs from the model evaluated at the current attributes")
+        if not isinstance(f_impl, BaseException):
+            modes = np.array([float(v) for v in pre[1]]).reshape(pre[0])
+            fm = (idst(modes.T).T / 2).squeeze()
+            if np.shape(f_impl) != fm.shape or not np.allclose(f_impl, fm, rtol=1e-10, atol=1e-10):
+                ctx.disagree(key + ":par2fun", {**desc, "p": short(P.tolist())}, short(fm.tolist()), short(np.asarray(f_impl).tolist()),
+                             "par2fun after re-assignment differs from the model evaluated at the current attributes")
+
+
+# ----------------------------------------------------------------------------- part G: mapped geometries around expansions, non-commuting maps
+def part_mapped(ctx, cuqi, thorough):
+    """MappedGeometry(inner, map, imap) with maps that do not commute with inner.fun2par.  Model side:
+    the inner model map on imap(f) (fun2par) / map applied to the inner model's par2fun (map, imap are
+    leaf functions evaluated by the harness; KL transforms leaf data as in part C)."""
+    from cuqi.geometry import KLExpansion, StepExpansion, Image2D, Continuous2D, MappedGeometry
+    from cuqi.samples import Samples
+    from cuqi.array import CUQIarray
+    from scipy.fftpack import dst, idst
+    rng = np.random.RandomState(ctx.seed + 1306)
+    maps = {"exp": (np.exp, np.log), "shift": (lambda x: x + 3.0, lambda y: y - 3.0), "affine": (lambda x: 2.0 * x + 1.0, lambda y: (y - 1.0) / 2.0),
+            "negaffine": (lambda x: -2.0 * x + 1.0, lambda y: (y - 1.0) / -2.0), "cube": (lambda x: x ** 3, np.cbrt)}
+    inners = []
+    for N, nm in [(8, None), (8, 3), (12, 5), (6, 2)] + ([(16, 7), (9, 4)] if thorough else []):
+        tau, gam = 2.0, 1
+        inners.append((f"KLExpansion", {"N": N, "num_modes": nm}, lambda N=N, nm=nm: KLExpansion(np.linspace(0, 1, N), decay_rate=gam, normalizer=tau, num_modes=nm),
+                       ("kl", N, (N if nm is None else nm), tau, gam)))
+    for (x0, h, n, st) in [(0.0, 1.0, 6, 3), (0.0, 0.5, 9, 4), (-1.0, 1.0, 8, 2)]:
+        grid = x0 + h * np.arange(n)
+        for proj in ("mean", "max", "min"):
+            inners.append(("StepExpansion", {"n": n, "n_steps": st, "projection": proj},
+                           lambda grid=grid, st=st, proj=proj: StepExpansion(grid, n_steps=st, fun2par_projection=proj), ("spec", step_spec(grid, st, proj), st, (n,))))
+    inners.append(("Continuous2D", {"grid": [2, 3]}, lambda: Continuous2D((2, 3)), ("spec", "cont2d:2:3", 6, (2, 3))))
+    for o in ("C", "F"):
+        inners.append(("Image2D", {"im_shape": [3, 2], "order": o}, lambda o=o: Image2D((3, 2), order=o), ("spec", f"image:3:2:{o}:0", 6, (3, 2))))
+
+    lines, meta = [], []
+    for (iname, iinfo, mk, mdl) in inners:
+        for mname, (fm, fi) in maps.items():
+            for ns in (None, 2, 3):
+                with quiet():
+                    inner, m = mk(), MappedGeometry(mk(), map=fm, imap=fi)
+                pd = mdl[2]
+                fs = (mdl[1],) if mdl[0] == "kl" else mdl[3]
+                P = 0.25 * ints(rng, (pd,) if ns is None else (pd, ns), -6, 6)
+                F = fm(0.25 * ints(rng, fs if ns is None else fs + (ns,), -6, 6))   # in the range of map (domain of imap)
+                G_ = fi(F)
+                if mdl[0] == "kl":
+                    _, N, mm, tau, gam = mdl
+                    c = 1.0 / np.arange(1, mm + 1, dtype=float) ** gam
+                    lines.append(f"klpre {qv(c)} {q(tau)} {N} {enc(P)}")
+                    lines.append(f"klpost {qv(c)} {q(tau)} {N} {enc(dst(G_.reshape(N, -1).T * 2).T)}")
+                else:
+                    lines.append(f"map {mdl[1]} par2fun {enc(P)}")
+                    lines.append(f"map {mdl[1]} fun2par {enc(G_)}")
+                meta.append((iname, iinfo, mname, fm, fi, ns, inner, m, P, F, mdl))
+    outs = ctx.lean.drive(lines)
+    tol = 1e-10
+    for i, (iname, iinfo, mname, fm, fi, ns, inner, m, P, F, mdl) in enumerate(meta):
+        desc = {"inner": iname, **iinfo, "map": mname, "batch": ns}
+        ctx.case("mapped-expansion", desc)
+        key = f"Mapped({iname}):{mname}"
+        o_p2f, o_f2p = parse_arr(outs[2 * i]), parse_arr(outs[2 * i + 1])
+        f_impl, p_impl = call(m.par2fun, P.copy()), call(m.fun2par, F.copy())
+        bad = False
+        # tie
+        if isinstance(o_p2f, str) or isinstance(f_impl, BaseException):
+            if not (isinstance(o_p2f, str) and isinstance(f_impl, BaseException)):
+                ctx.disagree(key + ":par2fun", desc, outs[2 * i][:60], short(repr(f_impl)), "refusal differs"); bad = True
+        else:
+            arr = np.array([float(v) for v in o_p2f[1]]).reshape(o_p2f[0])
+            if mdl[0] == "kl":
+                arr = (idst(arr.T).T / 2).squeeze()
+            want = fm(arr)
+            if np.shape(f_impl) != want.shape or not np.allclose(f_impl, want, rtol=tol, atol=tol):
+                ctx.disagree(key + ":par2fun", {**desc, "p": short(P.tolist())}, short(want.tolist()), short(np.asarray(f_impl).tolist()),
+                             "mapped par2fun is not map(model inner par2fun)"); bad = True
+        if isinstance(o_f2p, str) or isinstance(p_impl, BaseException):
+            if not (isinstance(o_f2p, str) and isinstance(p_impl, BaseException)):
+                ctx.disagree(key + ":fun2par", desc, outs[2 * i + 1][:60], short(repr(p_impl)), "refusal differs"); bad = True
+        else:
+            want = np.array([float(v) for v in o_f2p[1]]).reshape(o_f2p[0])
+            if np.shape(p_impl) != want.shape or not np.allclose(p_impl, want, rtol=tol, atol=tol):
+                ctx.disagree(key + ":fun2par", {**desc, "f": short(F.tolist())}, short(want.tolist()), short(np.asarray(p_impl).tolist()),
+                             "mapped fun2par is not the model inner fun2par of imap(f)"); bad = True
+        # oracle (implementation only)
+        w1 = call(lambda: fm(inner.par2fun(P.copy())))
+        if not _cmp(f_impl, w1, tol):
+            ctx.fail(key + ":par2fun", {**desc, "p": short(P.tolist())}, short(repr(w1)), short(repr(f_impl)), "par2fun(p) is not map(geometry.par2fun(p))")
+        w2 = call(lambda: inner.fun2par(fi(F.copy())))
+        if not _cmp(p_impl, w2, tol):
+            ctx.fail(key + ":fun2par", {**desc, "f": short(F.tolist())}, short(repr(w2)), short(repr(p_impl)), "fun2par(f) is not geometry.fun2par(imap(f))")
+        if not isinstance(f_impl, BaseException):
+            back = call(m.fun2par, f_impl)
+            if iname == "Image2D" and ns is not None:
+                pass   # Image2D.fun2par flattens batches: listed finding `*Image2D*:fun2par:batch:not-columnwise` (part A)
+            elif isinstance(back, BaseException) or np.shape(back) != P.shape or not np.allclose(back, P, rtol=1e-8, atol=1e-8):
+                ctx.fail(key + ":roundtrip", {**desc, "p": short(P.tolist())}, short(P.tolist()), short(repr(back)), "fun2par(par2fun(p)) != p")
+            if ns is not None:
+                cols = np.stack([np.asarray(call(m.par2fun, P[:, j].copy())) for j in range(ns)], axis=-1)
+                if not _cmp(f_impl, cols, tol):
+                    ctx.fail(key + ":par2fun:not-columnwise", desc, short(cols.tolist()), short(np.asarray(f_impl).tolist()))
+                if iname != "Image2D" and not isinstance(p_impl, BaseException):
+                    pc = np.stack([np.asarray(call(m.fun2par, F[..., j].copy())) for j in range(ns)], axis=-1)
+                    if not _cmp(p_impl, pc, tol):
+                        ctx.fail(key + ":fun2par:not-columnwise", desc, short(pc.tolist()), short(np.asarray(p_impl).tolist()))
+        # containers
+        if ns is not None:
+            S = call(lambda: Samples(P.copy(), geometry=m))
+            fS = call(lambda: S.funvals)
+            if isinstance(fS, BaseException):
+                ctx.fail(key + ":Samples:raises", desc, "funvals defined", repr(fS)[:100])
+            else:
+                for j in range(ns):
+                    if not _cmp(fS.samples[..., j], call(m.par2fun, P[:, j].copy()), tol):
+                        ctx.fail(key + ":Samples:per-sample", {**desc, "sample": j}, "funvals[..., j] = par2fun(sample j)", "differs"); break
+                pS = call(lambda: fS.parameters)
+                if isinstance(pS, BaseException) or not _cmp(pS.samples, P, 1e-8):
+                    ctx.fail(key + ":Samples:lossless", desc, short(P.tolist()), short(repr(pS if isinstance(pS, BaseException) else pS.samples.tolist())),
+                             "parameters -> funvals -> parameters is not lossless")
+            is_vec = F.ndim == 2
+            SF = call(lambda: Samples(F.copy(), geometry=m, is_par=False, is_vec=is_vec).parameters)
+            if isinstance(SF, BaseException):
+                ctx.fail(key + ":Samples:raises", desc, "parameters defined", repr(SF)[:100])
+            else:
+                for j in range(ns):
+                    if not _cmp(SF.samples[:, j], call(lambda: inner.fun2par(fi(F[..., j].copy()))), tol):
+                        ctx.fail(key + ":Samples:per-sample", {**desc, "sample": j}, "parameters[:, j] = geometry.fun2par(imap(f_j))", "differs"); break
+        else:
+            C = call(lambda: CUQIarray(P.copy(), geometry=m))
+            back = call(lambda: np.asarray(C.funvals.parameters))
+            if isinstance(back, BaseException) or not _cmp(back, P, 1e-8):
+                ctx.fail(key + ":CUQIarray:lossless", desc, short(P.tolist()), short(repr(back)), "CUQIarray parameters -> funvals -> parameters")
+            CF = call(lambda: np.asarray(CUQIarray(F.copy(), is_par=False, geometry=m).parameters))
+            if not _cmp(CF, w2, tol):
+                ctx.fail(key + ":CUQIarray:per-sample", desc, short(repr(w2)), short(repr(CF)), "CUQIarray.parameters is not geometry.fun2par(imap(f))")
+
+
 # ----------------------------------------------------------------------------- entry
 def run(ctx):
     cuqi = import_cuqi()
@@ -758,3 +1064,5 @@ def run(ctx):
     part_kl(ctx, cuqi, thorough)
     part_chains(ctx, cuqi, gs, thorough)
     part_imgchk(ctx, thorough)
+    part_reassign(ctx, cuqi, thorough)
+    part_mapped(ctx, cuqi, thorough)
